@@ -4,6 +4,7 @@ package core
 
 var verifHarnesses = map[string]func(){
 	"VerifC18Exec":         VerifC18Exec,
+	"VerifC18Twice":        VerifC18Twice,
 	"VerifC18Step":         VerifC18Step,
 	"VerifCoreOrderLemmas": VerifCoreOrderLemmas,
 	"VerifC04Step":         VerifC04Step,
